@@ -168,6 +168,7 @@ int read_header(sqfs_istream_t *fp, tar_header_decoded_t *out)
 {
 	unsigned int set_by_pax = 0;
 	bool prev_was_zero = false;
+	bool have_ext_record = false;
 	sqfs_u64 pax_size;
 	tar_header_t hdr;
 	int version, ret;
@@ -182,13 +183,18 @@ int read_header(sqfs_istream_t *fp, tar_header_decoded_t *out)
 			goto fail;
 		}
 
-		if (ret == 0)
+		if (ret == 0) {
+			if (have_ext_record)
+				goto fail_ext_record;
 			goto out_eof;
+		}
 
 		if ((size_t)ret < sizeof(hdr))
 			goto fail_truncated;
 
 		if (is_memory_zero(&hdr, sizeof(hdr))) {
+			if (have_ext_record)
+				goto fail_ext_record;
 			if (prev_was_zero)
 				goto out_eof;
 			prev_was_zero = true;
@@ -215,6 +221,7 @@ int read_header(sqfs_istream_t *fp, tar_header_decoded_t *out)
 			if (out->link_target == NULL)
 				goto fail;
 			set_by_pax |= PAX_SLINK_TARGET;
+			have_ext_record = true;
 			continue;
 		case TAR_TYPE_GNU_PATH:
 			if (read_number(hdr.size, sizeof(hdr.size), &pax_size))
@@ -226,6 +233,7 @@ int read_header(sqfs_istream_t *fp, tar_header_decoded_t *out)
 			if (out->name == NULL)
 				goto fail;
 			set_by_pax |= PAX_NAME;
+			have_ext_record = true;
 			continue;
 		case TAR_TYPE_PAX_GLOBAL:
 			if (read_number(hdr.size, sizeof(hdr.size), &pax_size))
@@ -248,6 +256,7 @@ int read_header(sqfs_istream_t *fp, tar_header_decoded_t *out)
 			set_by_pax = 0;
 			if (read_pax_header(fp, pax_size, &set_by_pax, out))
 				goto fail;
+			have_ext_record = true;
 			continue;
 		case TAR_TYPE_GNU_SPARSE:
 			free_sparse_list(out->sparse);
@@ -296,6 +305,10 @@ fail_pax_len:
 	goto fail;
 fail_truncated:
 	fputs("unexpected end of input inside a tar header!\n", stderr);
+	goto fail;
+fail_ext_record:
+	fputs("unexpected end of input after an extended header record!\n",
+	      stderr);
 	goto fail;
 fail_magic:
 	fputs("input is not a ustar tar archive!\n", stderr);
